@@ -15,7 +15,23 @@ ASSUMPTIONS = []
 
 
 def corpus():
-    return []
+    """Two flows whose SYN cookies collide (the C08 known finding: they share one connection-table entry). Whatever
+    state they share, each reply must still go back to the flow that asked: identical and different segments,
+    retransmissions, and both orders."""
+    from props import c08
+    key, A, B = c08.KEY_W, c08.W_A, c08.W_B
+    ck = net.cookie(key, *A)
+    assert ck == net.cookie(key, *B)
+    req = b"GET / HTTP/1.0\r\n\r\n"
+    for x, y in ((A, B), (B, A)):
+        for seq_y, pay_y in ((100, req), (100, b"GET /other HTTP/1.0\r\n\r\n"), (777, req), (100, b"SSH-2.0-x\r\n")):
+            fr = [net.frame_tcp(x[0], x[1], x[2], x[3], 99, 0, 0x02),
+                  net.frame_tcp(x[0], x[1], x[2], x[3], 100, (ck + 1) & 0xFFFFFFFF, 0x18, req),
+                  net.frame_tcp(y[0], y[1], y[2], y[3], seq_y, (ck + 1) & 0xFFFFFFFF, 0x18, pay_y),
+                  net.frame_tcp(x[0], x[1], x[2], x[3], 100, (ck + 1) & 0xFFFFFFFF, 0x18, req),      # retransmission
+                  net.frame_tcp(y[0], y[1], y[2], y[3], seq_y, 5, 0x18, pay_y),
+                  net.frame_tcp(y[0], y[1], y[2], y[3], seq_y + len(pay_y), 5, 0x11)]
+            yield Script(Cfg(key=key), fr, "corpus:colliding-cookies (shared table entry, replies still mirror)")
 
 
 def rand_ip(rng, v6):
